@@ -19,7 +19,7 @@ Proved: lookup_nearest, assign_nearest_or_local, let_local, inner_not_visible_ou
 closure_sees_definition_scope, call_does_not_write_enclosing_frames, args_missing_default_extra_ignored,
 prims_by_value_containers_by_ref, read_after_write (+ _list, _paths), len_add_del_model, add_insert_concat_model,
 new_has_all_template_props (transitive), own_property_wins, method_this, init_once_with_args,
-init_once_with_args_and_supers, init_reads_super, addSuperClasses_no_fuel.  Hypotheses are listed with each theorem.
+init_once_with_args_and_supers, init_reads_super, addSuperClasses_cycle.  Hypotheses are listed with each theorem.
 -/
 namespace Ecal.Props.C05
 open Ecal.Ev Ecal.Obj
@@ -297,18 +297,22 @@ theorem len_add_del_model :
 example : ∃ st', runM (appendVals 1 1 [.null]) { lists := #[[], [.null]] } = (.ok (.list 2 2), st') := ⟨_, rfl⟩
 example : ∃ st', runM (appendVals 1 1 [.null]) { lists := #[[], [.null, .bool true]] } = (.ok (.list 1 2), st') := ⟨_, rfl⟩
 
-/-- `addSuperClasses`: FIRST the super templates, depth first and in list order (`superLoop`: elements that are
-    not maps are skipped, the returned inits are collected in order), THEN the template's own properties
-    (`copyProps`) — so own properties overwrite inherited ones and a later super overwrites an earlier one. -/
-theorem addSuperClasses_order (f obj tr : Nat) :
-    addSuperClasses (f + 1) obj tr = (do
-      let tkvs ← getMap tr
-      let (err, initSuper) ← (match mapLookup tkvs (.str superName) with
-        | some (.list r l) => do superLoop (addSuperClasses f obj) (← getList r l) none []
-        | some _ => pure (some (plain "Property _super must be a list of super classes"), [])
-        | none => pure (none, []))
-      let initFn ← copyProps obj initSuper tkvs Val.null
-      pure (initFn, err)) := rfl
+/-- `addSuperClasses` (Go: addSuperClassesOnPath): a template already on the current path — it is its own super
+    template, directly or through others — adds nothing and sets the error variable; otherwise FIRST the super
+    templates, depth first and in list order, with this template on the path (`superLoop`: elements that are not maps
+    are skipped, the returned inits are collected in order), THEN the template's own properties (`copyProps`) — so
+    own properties overwrite inherited ones and a later super overwrites an earlier one. -/
+theorem addSuperClasses_order (f obj : Nat) (path : List Nat) (tr : Nat) :
+    addSuperClasses (f + 1) obj path tr =
+      if path.contains tr then pure (Val.null, some (plain "Super class hierarchy contains a cycle"))
+      else (do
+        let tkvs ← getMap tr
+        let (err, initSuper) ← (match mapLookup tkvs (.str superName) with
+          | some (.list r l) => do superLoop (addSuperClasses f obj (tr :: path)) (← getList r l) none []
+          | some _ => pure (some (plain "Property _super must be a list of super classes"), [])
+          | none => pure (none, []))
+        let initFn ← copyProps obj initSuper tkvs Val.null
+        pure (initFn, err)) := rfl
 
 /- Full statement (tested by the correspondence run, not proved): after `new(T)`, every key of `T` and of all
    super templates of `T`, transitively, is a key of the object; values: own template over supers, later super
@@ -352,7 +356,7 @@ theorem method_this_partial (obj : Nat) (initSuper : List Val) (k nv : Val) (id 
     (`runBuiltin_uses`). -/
 theorem init_once_with_args (runInit : Nat → List Val → M Val) (tr id : Nat) (rest : List Val) (st s1 : St)
     (r0 : Val) (err : Option Sig)
-    (hadd : runM (addSuperClasses 200 st.maps.size tr) { st with maps := st.maps.push [] } = (.ok (r0, err), s1))
+    (hadd : runM (addSuperClasses 200 st.maps.size [] tr) { st with maps := st.maps.push [] } = (.ok (r0, err), s1))
     (hinit : mapLookup (s1.entries st.maps.size) (.str initName) = some (.func id)) :
     runM (newB runInit (.map tr :: rest)) st =
       match runM (runInit id rest) s1 with
@@ -361,7 +365,7 @@ theorem init_once_with_args (runInit : Nat → List Val → M Val) (tr id : Nat)
   new_runs_init_once runInit tr id rest st s1 r0 err hadd hinit
 
 /-- non-vacuity: a template `{"init": f0}` — `new` binds init to the object and the hypotheses above hold -/
-example : ∃ r s1, runM (addSuperClasses 200 1 0)
+example : ∃ r s1, runM (addSuperClasses 200 1 [] 0)
     { maps := #[[(.str initName, .func 0)], []], funcs := #[⟨"", default, 0, none, none⟩] } = (.ok r, s1) ∧
     mapLookup (s1.entries 1) (.str initName) = some (.func 1) := ⟨_, _, rfl, rfl⟩
 
@@ -407,11 +411,13 @@ theorem superLoop_order (rec : Nat → M (Val × Option Sig)) (sr : Nat) (rest :
   intro a ha
   cases a <;> first | rfl | (exfalso; exact ha _ rfl)
 
-/-- Cycles in the super graph: every level of super templates costs one unit of fuel (`addSuperClasses_order` calls
-    `addSuperClasses f` for the supers of `addSuperClasses (f+1)`), and without fuel the outcome is `Sig.fuel` — `new`
-    starts with 200, so a template that reaches itself through "super" ends the model run as `HANG`.  (The Go code
-    recurses without bound on such a cyclic container: stack overflow.) -/
-theorem addSuperClasses_no_fuel (obj tr : Nat) : addSuperClasses 0 obj tr = throw Sig.fuel := rfl
+/-- Cycles in the super graph (fix f42b440): a template met again on the current path is cut — state unchanged, its
+    init slot is null, the error variable carries "cycle" (`new` then fails with it unless an init replaces the
+    error).  Fuel only bounds the depth of acyclic super chains (200 levels in `new`). -/
+theorem addSuperClasses_cycle (f obj : Nat) (path : List Nat) (tr : Nat) (st : St) (h : path.contains tr = true) :
+    runM (addSuperClasses (f + 1) obj path tr) st =
+      (.ok (Val.null, some (plain "Super class hierarchy contains a cycle")), st) := by
+  simp only [addSuperClasses, h, if_true, runM_pure]
 
 /-- `new` — all templates.  Start: the state `s0` in which the fresh, empty object `obj` has just been allocated
     (`newB`), slot 0 of the list store being the nil slice.  After a successful `addSuperClasses`:
@@ -422,20 +428,20 @@ theorem addSuperClasses_no_fuel (obj tr : Nat) : addSuperClasses 0 obj tr = thro
     (`own_property_wins` per copy step). -/
 theorem new_has_all_template_props (st : St) (tr : Nat) (res : Val × Option Sig) (s1 : St)
     (h0 : st.backing 0 = []) (hsz : 0 < st.lists.size)
-    (hadd : runM (addSuperClasses 200 st.maps.size tr) { st with maps := st.maps.push [] } = (.ok res, s1)) :
-    (∀ key, TKey { st with maps := st.maps.push [] } st.maps.size 200 tr key →
+    (hadd : runM (addSuperClasses 200 st.maps.size [] tr) { st with maps := st.maps.push [] } = (.ok res, s1)) :
+    (∀ key, TKey { st with maps := st.maps.push [] } st.maps.size 200 [] tr key →
       hasKey (s1.entries st.maps.size) (.str key) = true) ∧
     (∀ key v, tr ≠ st.maps.size → (Val.str key, v) ∈ ({ st with maps := st.maps.push [] } : St).entries tr → isFunc v = false →
       (∀ k w, (k, w) ∈ ({ st with maps := st.maps.push [] } : St).entries tr → keyEq k (.str key) = true → w = v) →
       mapLookup (s1.entries st.maps.size) (.str key) = some v) := by
   have hfill : Filling { st with maps := st.maps.push [] } st.maps.size { st with maps := st.maps.push [] } :=
     ⟨by simp, rfl, fun _ _ => rfl, listsKept_refl _ _⟩
-  have ar := addSuperClasses_keys { st with maps := st.maps.push [] } st.maps.size h0 hsz 200 tr _ s1 res hfill hadd
-  exact ⟨ar.keys, ar.ownWins⟩
+  have ar := addSuperClasses_keys { st with maps := st.maps.push [] } st.maps.size h0 hsz 200 [] tr _ s1 res hfill hadd
+  exact ⟨ar.keys, fun key v => ar.ownWins key v rfl⟩
 
 /-- non-vacuity: template 1 = {"super": [template 0]}, template 0 = {"k": null}; key "k" is reachable -/
-example : TKey { maps := #[[(.str [107], .null)], [(.str superName, .list 1 1)], []], lists := #[[], [.map 0]] } 2 200 1 [107] :=
-  TKey.sup 199 1 1 1 0 [107] (by decide) rfl (by decide) (by simp [St.elems, St.backing]) (TKey.own 198 0 [107] .null (by decide) (by simp [St.entries]))
+example : TKey { maps := #[[(.str [107], .null)], [(.str superName, .list 1 1)], []], lists := #[[], [.map 0]] } 2 200 [] 1 [107] :=
+  TKey.sup 199 [] 1 1 1 0 [107] rfl (by decide) rfl (by decide) (by simp [St.elems, St.backing]) (TKey.own 198 [1] 0 [107] .null rfl (by decide) (by simp [St.entries]))
 
 /-- A method invoked through the object reads `this` = the object cell (by reference): the function stored in the
     object is bound to `.map obj` (`method_this_partial`), `runFunction` builds its frame with `buildFrame`
